@@ -125,7 +125,8 @@ impl BoxedUint {
     ///
     /// That is, returns the value `2^self.bits_precision() - 1`.
     pub fn max(at_least_bits_precision: u32) -> Self {
-        vec![Limb::MAX; Self::limbs_for_precision(at_least_bits_precision)].into()
+        // Every `BoxedUint` has at least one limb, also when zero bits are requested.
+        vec![Limb::MAX; Self::limbs_for_precision(at_least_bits_precision).max(1)].into()
     }
 
     /// Create a [`BoxedUint`] from an array of [`Word`]s (i.e. word-sized unsigned
